@@ -171,8 +171,10 @@ pub(crate) fn add_str_find<W, R, T>(
                 return xerr(ManagedXError::new("index out of bounds", rt)?);
             }
             let haystack = string.substr(start_ind, None);
+            // str::find yields a byte offset; positions are counted in characters
             let found_idx = haystack
                 .find(needle.as_str())
+                .map(|i| haystack[..i].chars().count())
                 .map(|i| ManagedXValue::new(XValue::Int((i + start_ind).into()), rt.clone()))
                 .transpose()?;
             Ok(manage_native!(XOptional { value: found_idx }, rt))
@@ -210,8 +212,10 @@ pub(crate) fn add_str_rfind<W, R, T>(
                 return xerr(ManagedXError::new("index out of bounds", rt)?);
             }
             let haystack = string.substr(0, end_ind);
+            // str::rfind yields a byte offset; positions are counted in characters
             let found_idx = haystack
                 .rfind(needle.as_str())
+                .map(|i| haystack[..i].chars().count())
                 .map(|i| ManagedXValue::new(XValue::Int(i.into()), rt.clone()))
                 .transpose()?;
             Ok(manage_native!(XOptional { value: found_idx }, rt))
